@@ -841,6 +841,14 @@ class Evaluator:
             return
         if isinstance(obj, (FuncV, DispatchV, PyFuncV)):
             return    # func.__name__ = ... bookkeeping
+        if isinstance(obj, self.ext.PolyV) and name in ("domain", "window"):
+            items = v.items if isinstance(v, (self.ext.NdArr, TupleV, ListV)) else None
+            if items is None or len(items) != 2 or not all(isinstance(i, Num) for i in items):
+                self.unsupported("Polynomial domain/window assigned something other than two numbers", node, fr)
+            if isinstance(obj, self.ext.DerivedPoly):
+                self.unsupported("domain store on a derivative polynomial", node, fr)
+            setattr(obj, name, (items[0].expr, items[1].expr))
+            return
         if isinstance(obj, Num) and name == "imaginary":
             return
         if isinstance(obj, Num) and obj.kind == "time" and name in ("precision", "format"):
